@@ -115,6 +115,9 @@ func checkC07(c *HandshakeCase) error {
 		}
 		st := ss.run(at)
 		st.drainLib()
+		if err := st.panicErr(); err != nil {
+			return err
+		}
 		if err := checkCommands(st.plan.Cmds(), c.ServerID, want, i+1); err != nil {
 			return err
 		}
@@ -228,6 +231,7 @@ func TestC07(t *testing.T) {
 		if nt {
 			rec.Sample(c)
 		}
+		journal("C07", "c07", c)
 		if err := checkC07(c); err != nil {
 			rec.Violation("c07", c, "", err)
 			rt.Fatalf("C07 violation: %v", err)
